@@ -29,12 +29,15 @@ Q = 0.25  # stamps advance in quarters of the period
 
 ALPHABET = [("s", 1, "v"), ("s", 2, "v"), ("s", 4, "v"), ("s", 10, "v"), ("s", 1, "none"), ("s", 2, "nan"), ("t",)]
 ALPHABET_T = ALPHABET + [("s", 3, "v"), ("s", 0, "v")]
-CONFIGS_Q = [(1.0, 2), (3.0, 4), (1.5, 1), (3.0, 16)]
-CONFIGS_T = CONFIGS_Q + [(1.0, 1), (1.0, 4), (1.5, 2), (3.0, 1), (2.0, 2)]
+# (max_data_age_in_periods, initial_buffer_len[, warn_buffer_len, max_buffer_len])
+# ... [, resampling period in seconds] - 0.2 s is not exactly representable in binary floating point
+CONFIGS_Q = [(1.0, 2), (3.0, 4), (1.5, 1), (3.0, 16), (3.0, 2, 3, 4), (2.0, 4, None, None, 0.2)]
+CONFIGS_T = CONFIGS_Q + [(1.0, 1), (1.0, 4), (1.5, 2), (3.0, 1), (2.0, 2), (2.0, 1, 1, 2), (1.0, 2, None, None, 0.2), (3.0, 4, None, None, 0.6)]
 
 
-def run_ops(ops, max_age, init_len):
+def run_ops(ops, max_age, init_len, warn=None, maxlen=None, P=P):
     """Returns per-tick records: (T, value, captured stamps or None, retained list, capacity, input period)."""
+    Q = P / 4.0
     log = []
     with virtual_loop(wall=True) as loop:
         captured = []
@@ -45,8 +48,9 @@ def run_ops(ops, max_age, init_len):
                 captured[-1].append("INVALID-SAMPLE-PASSED")
             return float(len(samples))
 
+        extra = {} if maxlen is None else {"warn_buffer_len": warn, "max_buffer_len": maxlen}
         cfg = ResamplerConfig(resampling_period=timedelta(seconds=P), max_data_age_in_periods=max_age, resampling_function=fn,
-                              initial_buffer_len=init_len, align_to=None)
+                              initial_buffer_len=init_len, align_to=None, **extra)
         r = Resampler(cfg)
         src = Broadcast(name="source")
         rx = src.new_receiver()
@@ -98,7 +102,11 @@ def run_ops(ops, max_age, init_len):
     return log
 
 
-def oracle(log, max_age, init_len):
+def us(x):
+    return int(round(x * 1e6))
+
+
+def oracle(log, max_age, init_len, P=P):
     v = []
     for i, rec in enumerate(log):
         if len(rec["emitted"]) != 1:
@@ -107,7 +115,8 @@ def oracle(log, max_age, init_len):
         T, val = rec["emitted"][0]
         inper = rec["input_period"]
         W = max_age * max(P, inper if inper else P)
-        exp = [s for s in rec["retained"] if T - W < s <= T + 1e-9]
+        # exact (microsecond) arithmetic, as timedelta does it: binary floats cannot represent 0.2 s steps
+        exp = [s for s in rec["retained"] if us(T) - us(W) < us(s) <= us(T)]
         got = rec["captured"][0] if rec["captured"] else []
         if len(rec["captured"]) > 1:
             v.append(("function_called_once_per_tick", {"tick": i, "calls": len(rec["captured"])}))
@@ -115,7 +124,7 @@ def oracle(log, max_age, init_len):
         if "INVALID-SAMPLE-PASSED" in got:
             v.append(("none_and_nan_samples_never_passed", {"tick": i, "passed": got}))
             break
-        if any(s > T + 1e-9 for s in got):
+        if any(isinstance(s, float) and us(s) > us(T) for s in got):
             v.append(("future_samples_never_passed", {"tick": i, "T": T, "passed": got}))
             break
         if got != exp:
@@ -144,7 +153,10 @@ CLAUSES = ["one_sample_per_tick", "none_and_nan_samples_never_passed", "future_s
 
 
 def shard(args) -> Acc:
-    tier, max_age, init_len, prefix, depth = args
+    tier, cfg_, prefix, depth = args
+    max_age, init_len = cfg_[0], cfg_[1]
+    buf = tuple(cfg_[2:4]) if len(cfg_) > 2 else ()
+    period = cfg_[4] if len(cfg_) > 4 else P
     acc = Acc()
     alpha = ALPHABET if tier == "quick" else ALPHABET_T
     for tail in itertools.product(alpha, repeat=depth):
@@ -152,8 +164,8 @@ def shard(args) -> Acc:
         if ("t",) not in ops:
             continue
         full = ops + [("t",)]
-        log = run_ops(full, max_age, init_len)
-        viol = oracle(log, max_age, init_len)
+        log = run_ops(full, max_age, init_len, *(buf or (None, None)), P=period)
+        viol = oracle(log, max_age, init_len, P=period)
         acc.evaluations += 1
         acc.traces += 1
         acc.transitions += len(full)
@@ -163,12 +175,13 @@ def shard(args) -> Acc:
         if any(o[0] == "s" and o[2] != "v" for o in full) or any(rec["input_period"] for rec in log):
             acc.nontrivial += 1
         acc.outcome(f"ticks={nt} resized={'yes' if any(rec['capacity'] != init_len for rec in log) else 'no'}")
-        acc.state(repr((max_age, init_len, ops)))
+        acc.state(repr((cfg_, ops)))
         if acc.evaluations % 5000 == 1:
             acc.sample({"max_data_age_in_periods": max_age, "initial_buffer_len": init_len, "ops": [list(o) for o in full],
                         "ticks": [{k: rec[k] for k in ("emitted", "captured", "capacity", "input_period")} for rec in log]})
         for clause, detail in viol:
-            acc.violation(Violation(clause, {"max_age": max_age, "init_len": init_len, "ops": [list(o) for o in full]}, detail))
+            acc.violation(Violation(clause, {"max_age": max_age, "init_len": init_len, "buffer_limits": list(buf), "period": period,
+                                             "ops": [list(o) for o in full]}, detail))
     return acc
 
 
@@ -177,13 +190,13 @@ def run(tier: str, seed: int, workers: int):
     cfgs = CONFIGS_Q if tier == "quick" else CONFIGS_T
     depth = 5 if tier == "quick" else 6
     shards = []
-    for max_age, init_len in cfgs:
+    for cfg_ in cfgs:
         for e1 in alpha:
             if tier == "quick":
-                shards.append((tier, max_age, init_len, [e1], depth - 1))
+                shards.append((tier, cfg_, [e1], depth - 1))
             else:
                 for e2 in alpha:
-                    shards.append((tier, max_age, init_len, [e1, e2], depth - 2))
+                    shards.append((tier, cfg_, [e1, e2], depth - 2))
     if seed:
         import random
 
@@ -192,7 +205,9 @@ def run(tier: str, seed: int, workers: int):
     meta = {
         "rule": "every operation history of length 5 (quick) / 6 (thorough) + a final tick over {receive a sample stamped 0.25 / 0.5 / 1 / 2.5 "
         "periods after the previous one - possibly after the next tick - valid / None / NaN; tick} containing at least one tick, for "
-        "4 (quick) / 9 (thorough) configurations of max_data_age_in_periods x initial_buffer_len, resampling period 1 s; the recording "
+        "5 (quick) / 11 (thorough) configurations of max_data_age_in_periods x initial_buffer_len (one / two with a small custom "
+        "max_buffer_len that the computed length exceeds), resampling period 1 s (one / three configurations: 0.2 s, 0.6 s, which are "
+        "not exactly representable in binary floating point, at a wall clock of 1.7e9 s); the recording "
         "resampling function captures the exact sequence it is handed; non-trivial = history with an invalid sample or a published "
         "input period (buffer resized)",
         "assumptions": [
@@ -210,4 +225,6 @@ def run(tier: str, seed: int, workers: int):
 
 def replay(case: dict):
     ops = [tuple(o) for o in case["ops"]]
-    return oracle(run_ops(ops, case["max_age"], case["init_len"]), case["max_age"], case["init_len"])
+    bl = case.get("buffer_limits") or [None, None]
+    per = case.get("period", P)
+    return oracle(run_ops(ops, case["max_age"], case["init_len"], *bl, P=per), case["max_age"], case["init_len"], P=per)
